@@ -66,6 +66,7 @@ func main() {
 	}
 	in := &instr{}
 	overlay := map[string]string{}
+	globalVars := 0
 	for _, p := range pkgs {
 		if len(p.Errors) > 0 {
 			fmt.Fprintln(os.Stderr, "package errors in", p.PkgPath, p.Errors[0])
@@ -99,9 +100,48 @@ func main() {
 			overlay[name] = dst
 		}
 	}
+	// per package: register pointers to all package-level variables (for the state footprint of C18)
+	atomicImports := 0
+	for _, p := range pkgs {
+		if !strings.HasPrefix(p.PkgPath, modPath) || strings.Contains(p.PkgPath, "/verifrt") || len(p.GoFiles) == 0 {
+			continue
+		}
+		for _, f := range p.Syntax {
+			for _, im := range f.Imports {
+				if im.Path.Value == `"sync/atomic"` {
+					atomicImports++
+				}
+			}
+		}
+		var names []string
+		sc := p.Types.Scope()
+		for _, n := range sc.Names() {
+			if v, ok := sc.Lookup(n).(*types.Var); ok && n != "_" {
+				_ = v
+				names = append(names, n)
+			}
+		}
+		if len(names) == 0 {
+			continue
+		}
+		var gb strings.Builder
+		fmt.Fprintf(&gb, "package %s\n\nimport \"%s/verifrt\"\n\nfunc init() {\n\tverifrt.RegisterGlobals(%q, map[string]interface{}{\n", p.Name, modPath, p.PkgPath)
+		for _, n := range names {
+			fmt.Fprintf(&gb, "\t\t%q: &%s,\n", n, n)
+		}
+		gb.WriteString("\t})\n}\n")
+		dir := filepath.Dir(p.GoFiles[0])
+		rel, _ := filepath.Rel(*repo, dir)
+		dst := filepath.Join(*out, "src", rel, "zz_verif_globals.go")
+		os.MkdirAll(filepath.Dir(dst), 0o755)
+		os.WriteFile(dst, []byte(gb.String()), 0o644)
+		overlay[filepath.Join(dir, "zz_verif_globals.go")] = dst
+		globalVars += len(names)
+	}
 	// the runtime packages
 	rt := filepath.Join(*out, "verifrt", "verifrt.go")
 	os.MkdirAll(filepath.Dir(rt), 0o755)
+	atomicImportsForRuntime = atomicImports
 	os.WriteFile(rt, []byte(verifrtSrc(in.sites)), 0o644)
 	overlay[filepath.Join(*repo, "verifrt", "verifrt.go")] = rt
 	vs := filepath.Join(*out, "verifrt", "vsync", "vsync.go")
@@ -111,10 +151,10 @@ func main() {
 
 	b, _ := json.MarshalIndent(map[string]interface{}{"Replace": overlay}, "", " ")
 	os.WriteFile(filepath.Join(*out, "overlay.json"), b, 0o644)
-	sb, _ := json.MarshalIndent(map[string]interface{}{"sites": in.sites, "map_loops_rewritten": in.mapLoops, "map_loops_left_alone": in.mapLoopsSkipped, "files_with_sync_redirected": in.syncFiles}, "", " ")
+	sb, _ := json.MarshalIndent(map[string]interface{}{"sites": in.sites, "map_loops_rewritten": in.mapLoops, "map_loops_left_alone": in.mapLoopsSkipped, "files_with_sync_redirected": in.syncFiles, "package_level_variables": globalVars, "sync_atomic_imports": atomicImports}, "", " ")
 	os.WriteFile(filepath.Join(*out, "sites.json"), sb, 0o644)
-	fmt.Printf("instr: %d files rewritten, %d access sites, %d map loops rewritten (%d left alone), %d files with sync redirected\n",
-		len(overlay)-2, len(in.sites), in.mapLoops, in.mapLoopsSkipped, in.syncFiles)
+	fmt.Printf("instr: %d files in the overlay, %d access sites, %d map loops rewritten (%d left alone), %d files with sync redirected, %d package-level variables registered, %d sync/atomic imports\n",
+		len(overlay)-2, len(in.sites), in.mapLoops, in.mapLoopsSkipped, in.syncFiles, globalVars, atomicImports)
 }
 
 // ---- rewriting -------------------------------------------------------------------
@@ -469,6 +509,8 @@ func exprString(fset *token.FileSet, e ast.Expr) string {
 
 // ---- generated runtime -------------------------------------------------------------
 
+var atomicImportsForRuntime int
+
 func verifrtSrc(sites []site) string {
 	var sb strings.Builder
 	sb.WriteString(`// Package verifrt is generated by /verif/instr; it exists only in the overlay.
@@ -529,6 +571,11 @@ func less(a, b string) bool {
 	return a < b
 }
 
+// Globals holds pointers to every package-level variable of the module, per package.
+var Globals = map[string]map[string]interface{}{}
+
+func RegisterGlobals(pkg string, m map[string]interface{}) { Globals[pkg] = m }
+
 // Scheduler hooks used by verifrt/vsync.
 var PointHook func(label string)
 var BlockHook func(label string, waiting func() bool)
@@ -548,6 +595,7 @@ var Sites = []string{
 	sb.WriteString(`}
 `)
 	sb.WriteString("\nfunc sprint(v any) string { return fmt.Sprint(v) }\n")
+	fmt.Fprintf(&sb, "\n// AtomicImports is the number of files of the module that import sync/atomic (not redirected).\nconst AtomicImports = %d\n", atomicImportsForRuntime)
 	return sb.String()
 }
 
